@@ -204,6 +204,23 @@ def wrappers(job, fb, m):
             job.prove('fd_weights is row n [m=%d n=%d v=%d]' % (m, n, v),
                       z3.simplify(sn.lift(w1[v]) - sn.lift(wa[n, v]), som=True) == 0, [],
                       dict(key='C15:fd_weights-not-row-n', kind='wrapper', m=m, n=n))
+    # results of earlier calls must stay valid after later calls with the same sizes (no shared work buffer)
+    xa, xb = sn.real_var('x0a'), sn.real_var('x0b')
+    for n in range(min(m, 3)):
+        def h_two():
+            with tr.traced():
+                first = fb.fd_weights_all(nodes, xa, n)
+                keep = [[first[k, v] for v in range(m)] for k in range(n + 1)]
+                row_first = fb.fd_weights(nodes, xa, n)
+                fb.fd_weights_all(nodes, xb, n)
+                fb.fd_weights(nodes, xb, n)
+                return first, keep, row_first
+        first, keep, row_first = sn.run_single(h_two).result
+        job.paths += 1
+        same = all(z3.is_true(z3.simplify(sn.lift(np.asarray(first)[k, v]) == sn.lift(keep[k][v]))) for k in range(n + 1) for v in range(m))
+        same = same and all(z3.is_true(z3.simplify(sn.lift(np.asarray(row_first)[v]) == sn.lift(keep[n][v]))) for v in range(m))
+        if not job.confirm('earlier result unchanged by a later call [m=%d n=%d]' % (m, n), bool(same)):
+            job.violation('aliasing', dict(key='C15:result-aliases-internal-buffer', kind='alias', m=m, n=n))
     # guard: n >= len(x) must raise ValueError
     for n in (m, m + 1):
         def h_bad():
@@ -258,6 +275,17 @@ def replay(cex):
     else:
         nodes = [float(v) for v in node_sets(max(m, 5), 0)['uniform'][:m]]
         x0 = float(asg.get('x0', 0.3))
+        if kind == 'alias':
+            n = cex.get('n', 1)
+            a = fb.fd_weights_all(np.array(nodes), 0.3, n)
+            a_copy = a.copy()
+            r = fb.fd_weights(np.array(nodes), 0.3, n)
+            r_copy = r.copy()
+            fb.fd_weights_all(np.array(nodes), -0.45, n)
+            fb.fd_weights(np.array(nodes), -0.45, n)
+            if not (np.array_equal(a, a_copy) and np.array_equal(r, r_copy)):
+                return True, 'the array returned by fd_weights_all(x, 0.3, %d) changed after calling fd_weights_all(x, -0.45, %d)' % (n, n)
+            return False, 'earlier results are unaffected by later calls'
         if kind == 'guard':
             try:
                 r = fb.fd_weights_all(np.array(nodes), x0, cex['n'])
